@@ -235,9 +235,10 @@ def U(v):
     return Adt('Uint128', None, [v])
 
 
-def Dec(n, d, inexact=False, src=None):
-    """value n/d; inexact: went through the 28-digit quotient; src: the string it was parsed from (for to_string)"""
-    return Adt('Decimal', None, [n, d, inexact, src])
+def Dec(n, d, inexact=False, src=None, factors=None):
+    """value n/d; inexact: went through the 28-digit quotient; src: the string it was parsed from (for to_string);
+    factors: (a, f, q) when the value was formed as (a/q)*f from integers (the pro-rata shape), for the oracles' witness matching"""
+    return Adt('Decimal', None, [n, d, inexact, src, factors])
 
 
 def Addr(s):
